@@ -14,7 +14,7 @@ private theorem run_append (cfg : Cfg) (st : St) (a b : List Ev) :
   | cons e es ih => simp [run, ih, List.append_assoc]
 
 def isDisconnect : Ev → Bool
-  | .disconnect => true
+  | .disconnect _ => true
   | _ => false
 
 private theorem alive_preserved (cfg : Cfg) (st : St) (evs : List Ev) (hal : st.alive = true)
@@ -52,7 +52,7 @@ private theorem optLog_live (cfg : Cfg) (hopt : cfg.optCb = true) (st : St) (evs
     | frame f => simp [step, hal, optLog_pushCalls cfg st hopt]
     | setHook inv => simp [step, hal, optLog]
     | clearHook => simp [step, optLog]
-    | disconnect => simp [isDisconnect] at hnd
+    | disconnect why => simp [isDisconnect] at hnd
 
 /-- **callback_log = push_log ++ [nil].** With `OnInvalidations` configured, for every sequence of
     frames (invalidation pushes per key / multi-key / flush, other pushes, replies, and on Redis 6
@@ -60,8 +60,8 @@ private theorem optLog_live (cfg : Cfg) (hopt : cfg.optCb = true) (st : St) (evs
     callback is called with exactly the argument of every invalidation push the server wrote, in
     wire order (nil for a flush), and with nil once more at the end. -/
 theorem callback_log (cfg : Cfg) (hopt : cfg.optCb = true) (evs : List Ev) (hnd : ∀ e ∈ evs, isDisconnect e = false)
-    (after : List Ev) :
-    optLog (run cfg {} (evs ++ [.disconnect] ++ after)) = pushLog cfg evs ++ [none] := by
+    (why : Exit) (after : List Ev) :
+    optLog (run cfg {} (evs ++ [.disconnect why] ++ after)) = pushLog cfg evs ++ [none] := by
   rw [List.append_assoc, run_append, optLog_append, optLog_live cfg hopt {} evs rfl hnd]
   have hal := alive_preserved cfg {} evs rfl hnd
   generalize (evs.foldl (fun s e => (step cfg s e).1) {}) = st at hal
@@ -95,11 +95,24 @@ theorem nothing_after_disconnect (cfg : Cfg) (st : St) (hdead : st.alive = false
 theorem hook_sees_while_installed (cfg : Cfg) (st : St) (hal : st.alive = true) (vs : List PV) :
     hookLog (step cfg st (.frame (.push vs))).2 =
       (if st.hookInv then (invArg vs).toList else []) ∧
-    hookLog (step cfg st .disconnect).2 = (if st.hookInv then [none] else []) := by
+    ∀ why, hookLog (step cfg st (.disconnect why)).2 = (if st.hookInv then [none] else []) := by
   constructor
   · cases h : invArg vs <;> cases hh : st.hookInv <;> cases ho : cfg.optCb <;>
       simp [step, hal, frameInvs, pushCalls, h, hh, ho, hookLog]
-  · cases hh : st.hookInv <;> cases ho : cfg.optCb <;> simp [step, hal, hh, ho, hookLog]
+  · intro why
+    cases hh : st.hookInv <;> cases ho : cfg.optCb <;> simp [step, hal, hh, ho, hookLog]
+
+/-- **teardown_notifies_for_every_exit_reason.** Whatever ended the pipe — the server killed the
+    connection, the client closed it, a write failed, or ConnLifetime retired it — the clean-up makes
+    the same calls: one `nil` to the OnInvalidations callback (if configured) and one `nil` to the
+    SetOnInvalidations hook (if installed), exactly once, and the pipe is dead afterwards. -/
+theorem teardown_notifies_for_every_exit_reason (cfg : Cfg) (st : St) (hal : st.alive = true) (why : Exit) :
+    (step cfg st (.disconnect why)).2 =
+      (if cfg.optCb then [.opt none] else []) ++ (if st.hookInv then [.hook none] else []) ∧
+    (step cfg st (.disconnect why)).1.alive = false ∧
+    (∀ why' evs, run cfg (step cfg st (.disconnect why)).1 (.disconnect why' :: evs) = []) := by
+  refine ⟨by simp [step, hal], by simp [step, hal], fun why' evs => ?_⟩
+  exact nothing_after_disconnect cfg _ (by simp [step, hal]) _
 
 /-- keys are passed through unchanged: a per-key push, a multi-key push and a flush -/
 example : invArg [.str "invalidate", .arr ["k"]] = some (some ["k"]) := by decide
@@ -107,7 +120,7 @@ example : invArg [.str "invalidate", .arr ["a", "b"]] = some (some ["a", "b"]) :
 example : invArg [.str "invalidate", .null] = some none := by decide
 example : invArg [.str "invalidate"] = none := by decide
 example : optLog (run ⟨false, true⟩ {} [.frame (.push [.str "invalidate", .arr ["k"]]), .frame (.reply []),
-    .frame (.push [.str "invalidate", .null]), .disconnect]) = [some ["k"], none, none] := by decide
+    .frame (.push [.str "invalidate", .null]), .disconnect .lifetime]) = [some ["k"], none, none] := by decide
 
 /-- **tracking_off_before_reuse.** Releasing a dedicated client whose wire has an invalidation
     callback sends CLIENT TRACKING OFF after the hooks were reset and the subscriptions cleaned,
